@@ -28,10 +28,13 @@ def shape(k: int, s: str = "&t\""):
     dep = HTMLDependency("d", "1.2", source={"subdir": "lib d"}, script=[{"src": "a b.js"}, {"src": "c.js", "defer": ""}],
                          stylesheet={"href": "x/y.css"}, meta={"name": "n", "content": s}, head=Tag("title", s))
     dep2 = HTMLDependency("d", "1.10", source={"href": "http://h/"}, script={"src": "z.js"})
+    # no source at all, paths that percent-encoding changes
+    dep3 = HTMLDependency("nosrc", "0.1", script=[{"src": "a b.js"}, {"src": "q?x=1&y.js", "defer": ""}], stylesheet={"href": "é☃ 100%.css"})
+    dep4 = HTMLDependency("emptyhref", "0.2", source={"href": ""}, script={"src": "sp ace.js"}, all_files=True)
     if k == 0:
         return Tag("div", {"class": s, "id": "i"}, s, Tag("span", HTML("<u>" + s + "</u>"), dep, _add_ws=False), Tag("p"), title=s)
     if k == 1:
-        return TagList(dep, Tag("p", s, dep2), s, MetadataNode())
+        return TagList(dep, Tag("p", s, dep2, dep3), s, MetadataNode(), dep4)
     if k == 2:
         return Tag("html", Tag("head", Tag("title", s)), Tag("body", s, dep), lang="x")
     if k == 3:
@@ -41,7 +44,7 @@ def shape(k: int, s: str = "&t\""):
     if k == 5:
         return Tag("div", TFn(lambda: TagList(s, Tag("b", s), dep2)), RH("<r>" + s), TFn(lambda: Tag("i", dep)))
     if k == 6:
-        return TagList(head_content(Tag("style", s)), Tag("div", head_content(Tag("style", s)), dep, dep2))
+        return TagList(head_content(Tag("style", s)), Tag("div", head_content(Tag("style", s)), dep, dep2, dep3))
     if k == 7:
         return Tag("head", Tag("meta", name=s), dep)
     if k == 8:
